@@ -28,6 +28,8 @@ def defects(rng):
         ("unparsable colour", [f for f in VECTOR if "untouched" not in f], [("emoji_u1f9d0.svg", good(1, "notacolour"))], []),
         ("unsupported colour syntax (percent rgb)", [f for f in VECTOR if "colr" in f], [("emoji_u1f9d0.svg", good(1, "rgb(100%, 0%, 0%)"))], []),
         ("unsupported colour syntax in a gradient stop", [f for f in VECTOR if "colr" in f], [("emoji_u1f9d0.svg", (g % "").replace('stop-color="red"', 'stop-color="rgb(100%, 0%, 0%)"'))], []),
+        ("hex colour with a digit too many", [f for f in VECTOR if "colr" in f or f.startswith("picosvg")], [("emoji_u1f9d0.svg", good(1, "#FF00000"))], []),
+        ("hex colour with a digit too many in a gradient stop", [f for f in VECTOR if "colr" in f and not f.endswith("_0")], [("emoji_u1f9d0.svg", (g % "").replace('stop-color="red"', 'stop-color="#FF00000"'))], []),
         ("unknown spreadMethod", [f for f in VECTOR if "untouched" not in f and f != "glyf"], [("emoji_u1f9d0.svg", g % 'spreadMethod="bogus"')], []),
         ("palette index conflict", [f for f in VECTOR if "colr" in f], [("emoji_u1f9d0.svg", good(1, "var(--color1, red)")), ("emoji_u1f9d1.svg", good(2, "var(--color1, blue)"))], []),
         ("palette index conflict between a fill and a gradient stop", [f for f in VECTOR if "colr" in f and not f.endswith("_0")],
